@@ -24,10 +24,18 @@ import (
 	"verif/internal/sim"
 )
 
-const (
-	VerifDir = "/verif"
-	RepoDir  = "/repo"
-)
+// VerifDir is the directory the framework lives in: the working directory of
+// the check (the ./check script changes into its own directory), so that a
+// snapshot of /verif elsewhere on disk is self-contained.
+var VerifDir = func() string {
+	d, err := os.Getwd()
+	if err != nil || d == "" {
+		return "/verif"
+	}
+	return d
+}()
+
+const RepoDir = "/repo"
 
 func env(extra ...string) []string {
 	e := os.Environ()
